@@ -917,7 +917,11 @@ pub async fn run_scripted_resource() {
     let ccfg = EndpointCfg::default_cfg();
     let (nab, nba, nd) = world::draw_net(false);
     let n_txn = 1 + choice(3);
-    sim::set_config(format!("variant=scripted-resource transactions={} {}", n_txn, nd));
+    // the coordinator's credit for the control link: ample, or handed out in small batches that are
+    // only renewed once they are used up and the link has gone quiet (declares, discharges and the
+    // rollback a dropped transaction sends all take one each)
+    let ctl_batch: u32 = pick(&[1000u32, 1, 2, 3, 2]);
+    sim::set_config(format!("variant=scripted-resource transactions={} control-link-credit-batch={} {}", n_txn, ctl_batch, nd));
     sim::mark_nontrivial();
     sim::set_panic_is_violation(true);
     let cvp = match peer::client_vs_peer(&ccfg, peer::open("resource", Some(65536), Some(255), None), nab, nba, Models::none()).await {
@@ -959,7 +963,7 @@ pub async fn run_scripted_resource() {
         let mut args = AttachArgs::receiver("control", 9);
         args.target = refcodec::described(COORDINATOR, vec![V::Array(vec![V::Sym("amqp:local-transactions".into())])]);
         peer.send(0, &peer::attach(&args)).await;
-        let f = FlowArgs { next_incoming_id: Some(0), incoming_window: 5000, next_outgoing_id: 0, outgoing_window: 5000, handle: Some(9), delivery_count: Some(0), link_credit: Some(1000), ..Default::default() };
+        let f = FlowArgs { next_incoming_id: Some(0), incoming_window: 5000, next_outgoing_id: 0, outgoing_window: 5000, handle: Some(9), delivery_count: Some(0), link_credit: Some(ctl_batch), ..Default::default() };
         peer.send(0, &peer::flow(&f)).await;
         Some(())
     };
@@ -997,8 +1001,35 @@ pub async fn run_scripted_resource() {
         let mut current: Option<usize> = None;
         let mut posts_seen = vec![0u32; plans2.len()];
         let mut discharged = vec![false; plans2.len()];
+        // control deliveries received / allowed so far (the limit only ever grows, so a delivery
+        // beyond it cannot be excused by anything in flight)
+        let mut ctl_received = 0u32;
+        let mut ctl_limit = ctl_batch;
+        let mut frames_in = 0u32;
         loop {
-            match peer.recv_within(500).await {
+            let item = peer.recv_within(500).await;
+            if item.is_none() && ctl_received >= ctl_limit && !peer.eof {
+                // the batch is used up and the link has gone quiet: the next batch
+                ctl_limit = ctl_received + ctl_batch;
+                let f = FlowArgs { next_incoming_id: Some(frames_in), incoming_window: 5000, next_outgoing_id: 0, outgoing_window: 5000, handle: Some(9), delivery_count: Some(ctl_received), link_credit: Some(ctl_batch), ..Default::default() };
+                peer.send(0, &peer::flow(&f)).await;
+                sim::probe("control-link-credit-renewed");
+            }
+            if let Some(Item::Frame(f)) = &item {
+                if f.code == wire::TRANSFER {
+                    frames_in += 1;
+                    if f.perf.as_ref().and_then(|p| p.field(0).as_u32()) == Some(1) {
+                        if ctl_received >= ctl_limit {
+                            sim::violation(
+                                "control-link-credit-overrun",
+                                format!("control delivery number {} arrived; the coordinator had granted credit for {} deliveries in all (batches of {})", ctl_received + 1, ctl_limit, ctl_batch),
+                            );
+                        }
+                        ctl_received += 1;
+                    }
+                }
+            }
+            match item {
                 Some(Item::Frame(f)) => match f.code {
                     wire::TRANSFER => {
                         let p = f.perf.as_ref().unwrap();
